@@ -608,15 +608,15 @@ def limiter_machine(rep, lib, rid="C08-LIMITER-MACHINE"):
     from lib.machine import run_method
     from lib.peval import ok as OK
     deep = getattr(rep, "tier", "quick") == "thorough"
-    SMAX = 8 if deep else 4          # the thorough tier explores skip 0..7 x take none/0..7 over 18 rows
-    NROWS = 2 * SMAX + 2 if deep else 9
+    SMAX = 13 if deep else 7         # quick: skip 0..6 x take none/0..6 (the property's quantifier) over 16 rows;
+    NROWS = 40 if deep else 16       # thorough: skip 0..12 x take none/0..12 over 40 rows
     r = rep.rule(rid, "the limiter, as the state machine its process() body implements (state = skipped, passed): for "
-                 "every skip S in 0..3 (0..7 in the thorough tier), take T in {none, 0..3 (0..7)} and every stream of up to 9 (18) rows it forwards exactly the "
+                 "every skip S in 0..6 (0..12 in the thorough tier), take T in {none, 0..6 (0..12)} and every stream of up to 16 (40) rows it forwards exactly the "
                  "rows S..S+T-1, answers Break as soon as the T-th row was forwarded (at the first row after the skipped "
                  "ones when T = 0) and not before, answers what its successor answers when there is no take, and starts "
-                 "from skipped = passed = 0", floor=20,
+                 "from skipped = passed = 0", floor=56,
                  analysis="A5 partial evaluation of Limiter::process per concrete (S, T, skipped, passed) with the "
-                          "successor's answer seeded; the transitions are composed exhaustively over 20 (S,T) pairs")
+                          "successor's answer seeded; the transitions are composed exhaustively over 56 (S,T) pairs (182 in the thorough tier)")
     st = _stage_named(lib, "limits::Limiter")
     dec = lib.adts.get("processor::ProcessDesision")
     if st is None or "process" not in st.bodies or not dec:
